@@ -102,5 +102,5 @@ class Lemma:
                 goal = interp.eval_spec(self.claim, fr2)
             g = ops.z3bool(goal) if is_symbolic(goal) else z3.BoolVal(bool(goal))
             obs.append(Obligation('lemma.%s.%s' % (self.name, phase), list(interp.pc), g, 'lemma', 'lemma:' + self.name,
-                                  0, [], (), self.claim))
+                                  0, ['no-rmax-lower'] if self.name == 'rmax_lower' else [], (), self.claim))
         return obs
